@@ -407,7 +407,7 @@ def _oshape_component(rng, n):
 
 def cases(rng, tier):
     out = list(_corpus()) if tier != 'search' else []
-    nrand = dict(quick=1400, thorough=16000, search=6000)[tier]
+    nrand = dict(quick=6000, thorough=200000, search=20000)[tier]
     for i in range(nrand):
         u = rng.random()
         shape = _shape(rng)
